@@ -236,6 +236,11 @@ func symDecrypt(params *ECIESParams, key, ct []byte) (m []byte, err error) {
 		return
 	}
 
+	// the encrypted part starts with the IV; a sender who knows the recipient's public key
+	// can put a valid tag on anything, so a shorter one may get here
+	if len(ct) < params.BlockSize {
+		return nil, ErrInvalidMessage
+	}
 	ctr := cipher.NewCTR(c, ct[:params.BlockSize])
 
 	m = make([]byte, len(ct)-params.BlockSize)
